@@ -4,6 +4,8 @@ import Ctrmml.Model.MdsPlatform
 import Ctrmml.Spec.Timeline
 import Ctrmml.Spec.SeqWf
 import Ctrmml.Model.Optimizer
+import Ctrmml.Model.MdsFile
+import Ctrmml.Spec.PlainFragment
 namespace Driver.ConvD
 open Ctrmml Ctrmml.Mds Ctrmml.Player Driver Tables
 
@@ -93,6 +95,12 @@ def showIns (d : DataInfo) : String :=
   ",".intercalate (ids.map fun id =>
     s!"{id}:{(d.insType.lookup id).getD 0}:{match d.envelopeMap.lookup id with | some i => (i : Int) | none => -1}")
 
+def render (r : Req) (conv : Conv) (trackList : List (Nat × List MEv)) (seq : List Nat) : String :=
+  let tl := if trackList.isEmpty then "-" else "|".intercalate (trackList.map fun (id, l) => s!"{id}:{showMevs l}")
+  let subs := if conv.subList.isEmpty then "-" else "|".intercalate (conv.subList.map showMevs)
+  let used := if conv.usedData.isEmpty then "-" else ",".intercalate (conv.usedData.map fun (m, i) => s!"{m}:{i}")
+  s!"seq={hexNat seq} tl={tl} subs={subs} macros={conv.macroList.length} used={used} ins={showIns r.data}"
+
 def model (arg : String) : String :=
   match parseReq arg with
   | none => "bad-request"
@@ -102,12 +110,13 @@ def model (arg : String) : String :=
     | .error (.writer e) => werrMsg e
     | .error (.codec .atEmpty) => "exc:out_of_range"
     | .error (.codec .stackEmpty) => "UB:stack-top-on-empty"
-    | .error .macroUnmodelled => "MODEL:unmodelled-macro-track"
-    | .ok c =>
-      let tl := if c.trackList.isEmpty then "-" else "|".intercalate (c.trackList.map fun (id, l) => s!"{id}:{showMevs l}")
-      let subs := if c.conv.subList.isEmpty then "-" else "|".intercalate (c.conv.subList.map showMevs)
-      let used := if c.conv.usedData.isEmpty then "-" else ",".intercalate (c.conv.usedData.map fun (m, i) => s!"{m}:{i}")
-      s!"seq={hexNat c.seq} tl={tl} subs={subs} macros={c.conv.macroList.length} used={used} ins={showIns r.data}"
+    | .error .macroUnmodelled =>
+      -- the first-layer model stops at macro tracks; the constructor model (C09's, over which the whole-song
+      -- theorems are stated) has them
+      match MdsFile.construct r.song r.data (r.volume.map toString) with
+      | .ok b => render r b.conv b.trackList b.seq
+      | .error _ => "MODEL:unmodelled-macro-track"
+    | .ok c => render r c.conv c.trackList c.seq
 
 def showTk : Seq.Tk → String
   | .on n => s!"N{n}"
@@ -123,16 +132,39 @@ def field (impl k : String) : Option String :=
 
 def firstDiff (a b : List Seq.Tk) : Nat := ((a.zip b).takeWhile (fun (x, y) => x == y)).length
 
+/-- the chunk of the constructor model the whole-song theorems are stated over (`MdsFile.construct`,
+C09's model), for the cross-check against the real bytes -/
+def viaConstruct (r : Req) : Option (List Nat) :=
+  match MdsFile.construct r.song r.data (r.volume.map toString) with
+  | .ok b => some b.seq
+  | .error _ => none
+
+/-- is this case an instance of the hypotheses of `C02_song_roundtrip_partial` /
+`C03_song_wellformed_partial`: song in the fragment (with the drum routines the constructor registered
+being routine tracks of the fragment, and every loop section ending in the drum-mode state it starts
+in), the platform commands defined are ones the theorems cover and the timeline reads them as the
+converter does (`Fragment.platAgreeB`), the constructor model accepts and its chunk (= the real bytes
+`seq`) is shorter than 64 KiB -/
+def provedInstance (r : Req) (seq : List Nat) : Bool :=
+  match MdsFile.construct r.song r.data (r.volume.map toString) with
+  | .ok b =>
+    Fragment.inFragment r.song b.conv.subMap && Fragment.platAgreeB r.data.platform r.platformSpec && b.seq == seq &&
+      decide (seq.length < 65536)
+  | .error _ => false
+
 /-- C02 oracle: every channel's bytes, interpreted by the MDSDRV sequence rules, give the tick
 string of the expanded song track (loop-back followed once); songs outside the encodable domain
 are skipped; a song the spec accepts must not be rejected. -/
-def judgeC02 (arg impl : String) : String :=
+def judgeC02 (arg impl : String) (same : Bool := true) : String :=
   match parseReq arg with
   | none => "skip"
   | some r =>
     if r.unmodelled then "skip" else
     let chans := r.song.tracks.filter (·.1 < 16)
     if !(chans.all fun (_, root) => Timeline.inDomain r.song root) then "skip" else
+    -- a drum routine whose first note is inside a `[]` loop: refused by the converter (repo fix b6d6699),
+    -- outside the encodable domain
+    if !(chans.all fun (_, root) => Fragment.routineNotesOutsideLoops r.song root) then "skip" else
     -- expected tick strings
     let exps := chans.map fun (id, root) => (id, Timeline.expected r.song r.platformSpec root)
     if exps.any (fun (_, e) => match e with | .error _ => true | .ok _ => false) then
@@ -147,6 +179,9 @@ def judgeC02 (arg impl : String) : String :=
       match (field impl "seq=").bind bytesOfHexNat with
       | none => "fail no sequence"
       | some seq =>
+        -- (`same` = the bytes are those of this very song, not of its optimised form)
+        if same && (match viaConstruct r with | some s => s != seq | none => false) then
+          "fail the constructor model MdsFile.construct assembles a different chunk" else
         match Seq.tracksOf seq with
         | none => "fail header unreadable"
         | some (base, ts) =>
@@ -163,7 +198,7 @@ def judgeC02 (arg impl : String) : String :=
             | .ok _, none => some s!"track {id} missing from the track table"
             | _, _ => none
           match res with
-          | [] => "ok"
+          | [] => if provedInstance r seq then "ok proved-fragment" else "ok"
           | x :: _ => "fail " ++ x
 
 /-- C03 oracle on the real bytes: every stream decodes instruction by instruction inside the
@@ -201,7 +236,11 @@ def judgeC03 (arg impl : String) : String :=
               | some 0 => some s!"track {id}: the loop-back jump spans no note or rest time"
               | _ => none
           match res with
-          | [] => "ok"
+          | [] =>
+            let chans := r.song.tracks.filter (·.1 < 16)
+            let inDom := chans.all fun (_, root) => Timeline.inDomain r.song root
+            let defined := chans.all fun (_, root) => match Timeline.expected r.song r.platformSpec root with | .ok _ => true | .error _ => false
+            if inDom && defined && provedInstance r seq then "ok proved-fragment" else "ok"
           | x :: _ => "fail " ++ x
 
 /-- split `<min_score> rest…` -/
@@ -239,10 +278,10 @@ def modelO (arg : String) : String :=
 def judgeO (arg impl : String) : String :=
   let (_, rest) := splitScore arg
   if impl.startsWith "opterr:" ∨ impl.startsWith "optexc:" then "skip"   -- C01's subject
-  else judgeC02 rest impl
+  else judgeC02 rest impl false
 
 def handlers : List Driver.Handler :=
-  [{ cmd := "conv", model := model, judge := judgeC02 },
+  [{ cmd := "conv", model := model, judge := fun a i => judgeC02 a i },
    { cmd := "convo", model := modelO, judge := judgeO },
    { cmd := "convwf", model := model, judge := judgeC03 }]
 end Driver.ConvD
